@@ -4,9 +4,9 @@ VIEW View
 INVARIANTS Emit Identities
 CHECK_DEADLOCK FALSE
 CONSTANTS
-  Mode = "fn"
-  MaxDepth = 2
-  W1 = "core"
+  Mode = "wrap"
+  MaxDepth = 4
+  W1 = "full"
   W2 = "core"
   W3 = "core"
   SlRange = 2
